@@ -1,24 +1,10 @@
-//! C05 under libFuzzer: bytes -> (decoder, max, split points, stream); the oracle is the one of
-//! the proptest campaigns (harness/src/codec/oracle.rs `decode_oracle`). A violated clause
-//! aborts with the failure text; the crashing input is then replayed through `vcheck`.
+//! libFuzzer front end of the `decode` target; decoding and oracle live in the harness library
+//! (harness/src/fuzzdec.rs) so that a crashing input can be replayed through `vcheck --replay`.
 #![no_main]
 use libfuzzer_sys::fuzz_target;
-use vcheck::codec::Kind;
 
 fuzz_target!(|data: &[u8]| {
-    if data.len() < 4 {
-        return;
-    }
-    let kind = [Kind::ClientV4, Kind::ClientV5, Kind::BrokerV4, Kind::BrokerV5][(data[0] & 3) as usize];
-    let max = [0usize, 1, 2, 127, 128, 1024, 1 << 20, usize::MAX][(data[1] & 7) as usize];
-    let nsplit = (data[2] & 3) as usize;
-    let body = &data[3..];
-    if body.len() < nsplit {
-        return;
-    }
-    let (sp, stream) = body.split_at(nsplit);
-    let splits: Vec<usize> = sp.iter().map(|b| *b as usize % (stream.len() + 1)).collect();
-    if let Err(f) = vcheck::codec::oracle::decode_oracle(kind, max, stream, &splits) {
-        panic!("C05 violated: {} :: {}", f.signature, f.detail);
+    if let Err(f) = vcheck::fuzzdec::run_target("decode", data) {
+        panic!("property violated: {} :: {}", f.signature, f.detail);
     }
 });
